@@ -142,6 +142,11 @@ def coq_make(targets, timeout=1500):
     """Full .vo build (never -vos) of the given targets and their dependencies."""
     ensure_makefile()
     rc, out, dt = sh('make -j16 %s' % ' '.join(targets), cwd=COQ, timeout=timeout)
+    if rc not in (0, 124) and 'Error' not in out:
+        # a coqc process died without a Coq error (observed rarely under heavy load): not a statement about the proofs; once more
+        log('coq build stopped without a Coq error (rc=%s); retrying once' % rc)
+        rc, out2, dt2 = sh('make -j8 %s' % ' '.join(targets), cwd=COQ, timeout=timeout)
+        out, dt = out + out2, dt + dt2
     return rc, out, dt
 
 
@@ -276,7 +281,14 @@ def run_model(tag, imports, fn, cases, scope='N', elem='list N', shards=16, time
             for q, _, _ in procs:
                 q.kill()
             raise RuntimeError('model evaluation timed out (%s)' % tag)
-        if p.returncode != 0:
+        if p.returncode != 0 and 'Error' not in out:
+            # died without a Coq error: re-run this shard once, synchronously
+            p2 = subprocess.run(['coqc', '-noglob', '-Q', '.', 'TV', os.path.relpath(path, COQ)], cwd=COQ, stdout=subprocess.PIPE,
+                                stderr=subprocess.STDOUT, text=True, timeout=timeout)
+            out = p2.stdout
+            if p2.returncode != 0:
+                raise RuntimeError('model evaluation failed (%s): %s' % (tag, out[-2000:]))
+        elif p.returncode != 0:
             raise RuntimeError('model evaluation failed (%s): %s' % (tag, out[-2000:]))
         got = parse_eval(out)
         if len(got) != cnt:
